@@ -422,6 +422,12 @@ impl AggregateUDFImpl for Sum {
             return None;
         };
 
+        // SUM over no rows is NULL, which sum statistics (0 for an empty
+        // column) do not express
+        if statistics_args.statistics.num_rows == Precision::Exact(0) {
+            return None;
+        }
+
         let (col_expr, cast_type) = match expr.downcast_ref::<Column>() {
             Some(col_expr) => (col_expr, None),
             None => {
